@@ -5,6 +5,7 @@ import (
 	"encoding/hex"
 	"fmt"
 	"io"
+	"reflect"
 	"strings"
 
 	"github.com/datastax/go-cassandra-native-protocol/compression/lz4"
@@ -151,6 +152,54 @@ func otherSources(res *lp.Result, rng *lp.Rng, cs compSetting, enc, trailer []by
 	}
 }
 
+type plainWriter struct{ w io.Writer }
+
+func (p plainWriter) Write(b []byte) (int, error) { return p.w.Write(b) }
+
+func otherDestinations(res *lp.Result, cs compSetting, orig, used *frame.Frame, enc []byte, id string) {
+	if hasMultiEntryMaps(orig) {
+		return // Go's map iteration order may differ between two encodings of the same frame
+	}
+	same := func(what string, got []byte, err error) {
+		res.Count("destinations/" + what)
+		if err != nil {
+			res.Add(lp.Finding{Kind: "violation", What: "frame that encodes into an empty buffer is refused when " + what + ": " + firstWords(err.Error()), Input: id})
+		} else if !bytes.Equal(got, enc) {
+			res.Add(lp.Finding{Kind: "violation", What: "encoded bytes differ when " + what, Input: id + " bytes=" + hxIn(enc), Impl: hxIn(got)})
+		}
+	}
+	pre := []byte("bytes already in the destination")
+	b1 := bytes.NewBuffer(append([]byte{}, pre...))
+	err := cs.codec.EncodeFrame(orig.DeepCopy(), b1)
+	if err == nil && !bytes.HasPrefix(b1.Bytes(), pre) {
+		res.Add(lp.Finding{Kind: "violation", What: "encoding into a buffer that already holds bytes damages them", Input: id})
+	} else if err == nil {
+		same("the destination already holds bytes", b1.Bytes()[len(pre):], nil)
+	} else {
+		same("the destination already holds bytes", nil, err)
+	}
+	var b2 bytes.Buffer
+	err = cs.codec.EncodeFrame(orig.DeepCopy(), plainWriter{&b2})
+	same("the destination is not a *bytes.Buffer", b2.Bytes(), err)
+	var b3 bytes.Buffer
+	err = cs.codec.EncodeFrame(used, &b3)
+	same("the same frame object is encoded a second time", b3.Bytes(), err)
+	var other frame.Codec
+	if cs.comp == nil {
+		other = frame.NewCodec()
+	} else {
+		other = frame.NewCodecWithCompression(cs.comp)
+	}
+	var b4 bytes.Buffer
+	err = other.EncodeFrame(orig.DeepCopy(), &b4)
+	same("the codec comes from NewCodec / NewCodecWithCompression", b4.Bytes(), err)
+	if d, derr := other.DecodeFrame(bytes.NewReader(enc)); derr != nil {
+		res.Add(lp.Finding{Kind: "violation", What: "a codec from NewCodec / NewCodecWithCompression does not decode what a raw codec encoded: " + firstWords(derr.Error()), Input: id})
+	} else if d2, _ := cs.codec.DecodeFrame(bytes.NewReader(enc)); d2 != nil && show.Frame(d) != show.Frame(d2) {
+		res.Add(lp.Finding{Kind: "violation", What: "a codec from NewCodec / NewCodecWithCompression decodes the same bytes to another frame", Input: id})
+	}
+}
+
 func runFrames(res *lp.Result, prop string) {
 	res.Rule = "generated version-valid frames: every message kind (all ERROR/RESULT/EVENT variants) × 6 versions × {none, LZ4, Snappy} × random " +
 		"optional-field subsets, nil/empty/unset values, boundary string sizes, nested column types, header flags legal for direction " +
@@ -165,8 +214,12 @@ func runFrames(res *lp.Result, prop string) {
 		per = 120
 	}
 	var lines, expect, descr []string
-	ask := func(l, want, d string) { lines = append(lines, l); expect = append(expect, want); descr = append(descr, d) }
-	var stream bytes.Buffer   // C03: frames written back-to-back on one stream
+	ask := func(l, want, d string) {
+		lines = append(lines, l)
+		expect = append(expect, want)
+		descr = append(descr, d)
+	}
+	var stream bytes.Buffer // C03: frames written back-to-back on one stream
 	var streamTexts []string
 	streamCodec := frame.NewRawCodec()
 	for _, v := range gen.Versions {
@@ -259,6 +312,10 @@ func runFrames(res *lp.Result, prop string) {
 						continue
 					}
 					enc := append([]byte{}, buf.Bytes()...)
+					// the bytes do not depend on where they are written, how often, or which constructor made the codec: a destination
+					// that already holds bytes, a destination that is not a *bytes.Buffer, the same frame object encoded a second time,
+					// and a codec from the other constructor all give the same bytes
+					otherDestinations(res, cs, orig, f, enc, id)
 					if rng.Intn(3) == 0 && len(enc) > 2 {
 						if _, err := cs.codec.DecodeFrame(bytes.NewReader(enc[:len(enc)-1-rng.Intn(len(enc)-1)])); err != nil {
 							res.Count("history/failing-decode")
@@ -476,4 +533,48 @@ func hxIn(b []byte) string {
 		return fmt.Sprintf("%s…(%d bytes in all, regenerate from the seed)", hx(b[:96]), len(b))
 	}
 	return hx(b)
+}
+
+// hasMultiEntryMaps: does the value hold, anywhere, a map with more than one entry (whose order on the wire is Go's choice)?
+func hasMultiEntryMaps(x interface{}) bool {
+	seen := map[uintptr]bool{}
+	var walk func(v reflect.Value) bool
+	walk = func(v reflect.Value) bool {
+		switch v.Kind() {
+		case reflect.Ptr, reflect.Interface:
+			if v.IsNil() {
+				return false
+			}
+			if v.Kind() == reflect.Ptr {
+				if seen[v.Pointer()] {
+					return false
+				}
+				seen[v.Pointer()] = true
+			}
+			return walk(v.Elem())
+		case reflect.Map:
+			if v.Len() > 1 {
+				return true
+			}
+			for _, k := range v.MapKeys() {
+				if walk(v.MapIndex(k)) {
+					return true
+				}
+			}
+		case reflect.Slice, reflect.Array:
+			for i := 0; i < v.Len(); i++ {
+				if walk(v.Index(i)) {
+					return true
+				}
+			}
+		case reflect.Struct:
+			for i := 0; i < v.NumField(); i++ {
+				if walk(v.Field(i)) {
+					return true
+				}
+			}
+		}
+		return false
+	}
+	return walk(reflect.ValueOf(x))
 }
